@@ -298,8 +298,8 @@ func checkC08(c *Ctx) {
 	runSR(c.U, r, t, func(f *ssa.Function) bool { return !c.U.isCtl(f) })
 	c.controlsSR()
 	r.floor("SR/direct-read", 1, "readCounter.Read is the forwarding wrapper")
-	r.floor("SR/fill-or-fail", 6, "binary.Read in getMetaDataSize, thrift Read in ReadMetaData and PageHeader, io.CopyN (+ page body reads) in pageData")
-	r.floor("SR/seek", 3+len(c.U.TC), "getMetaDataSize, ReadMetaData, PageHeadersAtOffset x2, NewParquetReader per package")
+	r.floor("SR/fill-or-fail", 4, "binary.Read in getMetaDataSize, thrift Read in ReadMetaData and PageHeader, io.CopyN (+ page body reads) in pageData")
+	r.floor("SR/seek", 2+len(c.U.TC), "getMetaDataSize, ReadMetaData, PageHeadersAtOffset x2, NewParquetReader per package")
 	r.assume("contracts of the opaque fill-or-fail callees as listed in DESIGN.md §3.4 (io, encoding/binary, thrift compact protocol over StreamTransport without read-ahead)")
 	r.assume("in-memory readers built from bytes already obtained (bytes.Buffer, gzip over a buffer) carry no obligation: the analysis tracks the identity of the source, not data read from it")
 }
@@ -317,8 +317,8 @@ func checkC10(c *Ctx) {
 	c.controlsEP()
 	n := len(c.U.TC)
 	r.Analysed["functions_reachable_from_reader_roots"] = len(reach)
-	r.floor("EP/source/primitive", 8+n, "getMetaDataSize x2, ReadMetaData x2, PageHeader, pageData x3 (+readCounter.Read) + NewParquetReader Seek per package")
-	r.floor("EP/source/derived", 6+3*n, "ReadFooter->ReadMetaData->getMetaDataSize, DoRead x2 -> PageHeader/pageData, NewParquetReader -> ReadFooter/readRowGroup, readRowGroup -> Field.Read, Next -> readRowGroup")
+	r.floor("EP/source/primitive", 5+n, "getMetaDataSize x2, ReadMetaData x2, PageHeader, pageData x3 (+readCounter.Read) + NewParquetReader Seek per package")
+	r.floor("EP/source/derived", 3+2*n, "ReadFooter->ReadMetaData->getMetaDataSize, DoRead x2 -> PageHeader/pageData, NewParquetReader -> ReadFooter/readRowGroup, readRowGroup -> Field.Read, Next -> readRowGroup")
 	r.assume("io.Reader/io.Seeker contract: a failed call returns a non-nil error")
 	r.assume("thrift-generated Read and encoding/binary.Read return the transport's error")
 }
@@ -400,8 +400,8 @@ func checkC11(c *Ctx) {
 		}
 	}
 	footerGate(c, roots)
-	r.floor("EP/footer/primitive", 4, "getMetaDataSize: Seek, binary.Read; ReadMetaData: Seek, thrift Read")
-	r.floor("EP/footer/derived", 2+len(u.TC), "ReadMetaData->getMetaDataSize, ReadFooter->ReadMetaData, NewParquetReader->ReadFooter per package")
+	r.floor("EP/footer/primitive", 3, "getMetaDataSize: Seek, binary.Read; ReadMetaData: Seek, thrift Read")
+	r.floor("EP/footer/derived", 1+len(u.TC), "ReadMetaData->getMetaDataSize, ReadFooter->ReadMetaData, NewParquetReader->ReadFooter per package")
 	r.floor("FOOTER-FIRST", len(u.TC), "one constructor per generated package")
 	r.assume("thrift rejects the bytes a truncated file presents as a footer — NOT decided (value-level)")
 	_ = sort.Strings
